@@ -166,7 +166,7 @@ def run(tier, replay):
         if bad:
             print("INTERNAL: forbidden vernacular in the Coq development:\n" + "\n".join(bad)); return 2
         tr_ok, tr_log = C.run_translator()
-        coq_ok, coq_log = C.coq_make()
+        coq_ok, coq_log = C.coq_make(["Properties/C15.vo"])
         model_ok, badfiles = C.coq_ok_for("proofs/AuthProofs.v") if not coq_ok else (True, [])
         gen_ok = coq_ok or C.coq_ok_for("GenAuth.v")[0]
         if not model_ok and gen_ok:
